@@ -32,6 +32,14 @@ Lemma WF_set_pending : forall v s, WF s -> WF (set_k_pending v s).
 Proof. intros v. destruct_st. intros [[? ? ? ? ? ? ? ? ? ? ? ?] ? ?]. wf_tac. Qed.
 Lemma Ext_set_pending : forall v s, Ext s (set_k_pending v s).
 Proof. intros v. destruct_st. ext_tac. constructor. Qed.
+Lemma WF_flush_mark : forall s, WF s -> WF (flush_mark s).
+Proof. destruct_st. intros [[? ? ? ? ? ? ? ? ? ? ? ?] ? ?]. unfold flush_mark. wf_tac. Qed.
+Lemma Ext_flush_mark : forall s, Ext s (flush_mark s).
+Proof. destruct_st. unfold flush_mark. ext_tac. constructor. Qed.
+Lemma WF_set_saved : forall b s, WF s -> WF (set_k_saved b s).
+Proof. intros b. destruct_st. intros [[? ? ? ? ? ? ? ? ? ? ? ?] ? ?]. wf_tac. Qed.
+Lemma Ext_set_saved : forall b s, Ext s (set_k_saved b s).
+Proof. intros b. destruct_st. ext_tac. constructor. Qed.
 Lemma WF_set_imm_back : forall b s, WF s -> k_intxn s = false -> (k_reg s = true -> shape_imm (sess s) = true -> b = true) -> WF (set_k_imm b s).
 Proof. intros b. destruct_st. intros [[? ? ? ? ? ? ? ? ? ? ? ?] ? ?] ? ?. norm. wf_tac. Qed.
 
@@ -136,18 +144,18 @@ Lemma flush_loop_spec : forall n s, WF s -> k_reg s = true -> k_imm s = true ->
   end.
 Proof.
   induction n as [|n IH]; intros s Hwf Hreg Himm.
-  - cbn. splits; auto using Ext_refl; try lia.
+  - cbn [flush_loop]. unfold upd. splits; auto using WF_set_saved, Ext_set_saved; try (cbn; lia).
   - cbn [flush_loop]. unfold bind, try_except.
     use (exec_with_spec eq (prepare_nf oracle) true SWrite prepare_nf_prep (or_intror (conj eq_refl eq_refl)) s Hwf).
     + destruct H as (Hwf1 & Hx1 & Hreg1 & Hfr & _ & Himm1 & Hhas1 & Hin1).
       destruct (Hfr Hreg) as (Hfu1 & Hp1 & _ & Hh1).
       unfold upd at 1.
-      set (s1 := set_k_pending (pred (k_pending s0)) s0).
+      set (s1 := flush_mark s0).
       assert (Hs1 : k_forupd s1 = k_forupd s0 /\ k_pending s1 = pred (k_pending s0) /\ k_has s1 = k_has s0 /\ k_intxn s1 = k_intxn s0)
         by (repeat split).
       destruct Hs1 as (Hs1a & Hs1b & Hs1c & Hs1d).
-      assert (Hwf2 : WF s1) by (apply WF_set_pending; exact Hwf1).
-      assert (Hx2 : Ext s0 s1) by apply Ext_set_pending.
+      assert (Hwf2 : WF s1) by (apply WF_flush_mark; exact Hwf1).
+      assert (Hx2 : Ext s0 s1) by apply Ext_flush_mark.
       assert (Hreg2 : k_reg s1 = true) by exact Hreg1.
       assert (Himm2 : k_imm s1 = true) by (apply Himm1; reflexivity).
       use (IH s1 Hwf2 Hreg2 Himm2).
@@ -178,7 +186,9 @@ Lemma cache_flush_spec : forall s, WF s -> k_reg s = true ->
                end
   end.
 Proof.
-  intros s Hwf Hreg. unfold cache_flush, bind, try_finally. unfold upd at 1.
+  intros s Hwf Hreg. unfold cache_flush. destruct (k_saved s) eqn:Hsaved.
+  { splits; auto using Ext_refl. }
+  unfold bind, try_finally. unfold upd at 1.
   set (s1 := set_k_imm true s).
   assert (Hs1 : k_forupd s1 = k_forupd s /\ k_pending s1 = k_pending s /\ k_has s1 = k_has s /\ k_intxn s1 = k_intxn s /\
                 k_reg s1 = k_reg s /\ k_imm s1 = true) by (repeat split).
